@@ -201,7 +201,7 @@ template <typename G> static void csrFamily(const Input& in, const std::string& 
       emitView(in, layout, threads, "sortedData", dumpOut(g), false);
     }
   }
-  {
+  for (int rep = 0; rep < (small(in) ? 1 : 6); ++rep) {
     ctx(in, layout.c_str(), "transpose", threads);
     G g; galois::graphs::readGraph(g, file); g.transpose(); number(g);
     emitView(in, layout, threads, "transposed", dumpOut(g), false);
@@ -300,6 +300,14 @@ static Input gen(int id, vh::Rng& r, bool large) {
     if (shape == 5 && s == n - 1) s = 0;          // last node without edges
     in.adj[s].push_back({(uint32_t)d, (long long)(1 + r.below(9))});
   }
+  if (large && shape <= 1) {
+    // hubs: a few nodes that almost everybody points to and that carry many self loops (maximal contention on their
+    // slot counters in the parallel transpose / in-edge construction)
+    for (auto& a : in.adj) a.clear();
+    size_t hubs = 1 + r.below(4);
+    for (size_t s = 0; s < n; ++s) for (int k = 0; k < 3; ++k) in.adj[s].push_back({(uint32_t)r.below(hubs), (long long)(1 + r.below(9))});
+    for (size_t h = 0; h < hubs; ++h) for (int k = 0; k < 3000; ++k) in.adj[h].push_back({(uint32_t)h, (long long)(1 + r.below(9))});
+  }
   if (shape != 5 && shape != 0 && r.coin()) in.adj[n - 1].push_back({(uint32_t)r.below(n), 3});   // last node with an edge
   return in;
 }
@@ -340,10 +348,11 @@ int main(int argc, char** argv) {
   signal(SIGSEGV, onCrash); signal(SIGABRT, onCrash); signal(SIGBUS, onCrash); signal(SIGFPE, onCrash);
   unsigned maxT = std::min(8u, galois::substrate::getThreadPool().getMaxThreads());
   int id = 0;
-  int nsmall = thorough ? 160 : 40, nlarge = thorough ? 8 : 2;
+  int nsmall = thorough ? 160 : 40, nlarge = thorough ? 12 : 4;
   for (int k = 0; k < nsmall + nlarge; ++k) {
     Input in = gen(id++, rng, k >= nsmall);
     unsigned threads = k < 4 ? 1 + k : 1 + (unsigned)rng.below(maxT);
+    if (k >= nsmall) threads = maxT - (unsigned)rng.below(3);
     switch (k % 3) {
     case 0: allLayouts<int>(in, threads, rng, "int"); break;
     case 1: allLayouts<void>(in, threads, rng, "void"); break;
